@@ -74,7 +74,8 @@ class Skein(object):
         # leaf level (0):
         Mi = []
         Ts = Tweak(TreeLevel=1,Type='msg')
-        for i in range(0,len(M),Nl):
+        # (an empty message still has one, empty, leaf)
+        for i in range(0,len(M) or 1,Nl):
             m = M[i:i+Nl]
             Mi.append(UBI(Threefish,self.G,Ts)(m))
             # spec for treehash is different from update
